@@ -116,6 +116,7 @@ def refs_proto(pkg, targets, imports, holder="Holder", full_sites=True):
         lines.append(f'import "google/protobuf/{w}.proto";')
     lines.append(f"message {holder} {{")
     n = 1
+    used_aliases = set()
     sites = []  # (site, kind, label, field name, number)
     for label, q, tag in targets:
         for kind, tname in KINDS:
@@ -130,6 +131,24 @@ def refs_proto(pkg, targets, imports, holder="Holder", full_sites=True):
                 lines.append(f"  map<string, {t}> m_{label}_{kind} = {n};")
                 sites.append(("map", kind, label, n))
                 n += 1
+        if full_sites:
+            # two maps whose names are suffix-related (items / sub_items), different value types, the shorter declared first
+            tm = fq(q, "Target" + tag)
+            ti = fq(q, "Target" + tag + ".Inner")
+            lines.append(f"  map<string, {tm}> items_{label} = {n};")
+            sites.append(("map", "msg", label, n))
+            n += 1
+            lines.append(f"  map<string, {ti}> sub_items_{label} = {n};")
+            sites.append(("map", "nested", label, n))
+            n += 1
+            # a field NAMED like the alias under which a descendant package is imported into this module
+            if pkg is not None and len(q) > len(pkg) and tuple(q[: len(pkg)]) == tuple(pkg):
+                alias = "_".join(q[len(pkg):])
+                if alias not in used_aliases:
+                    used_aliases.add(alias)
+                    lines.append(f"  {tm} {alias} = {n};")
+                    sites.append(("field", "msg", label, n))
+                    n += 1
         if full_sites:
             lines.append(f"  oneof pick_{label} {{")
             for kind, tname in KINDS:
